@@ -50,6 +50,13 @@ def gen(tier, rng):
             ret = ["s0"] if kind == "s" else ["r0"]
             cases.append(sg.line(kind, 3, pre, 60000, 1, 1, [], sg.prefill(pre) + ["m", "s0"] + ret))
             cases.append(sg.line(kind, 3, pre, 60000, 0, 0, [], sg.prefill(pre)))
+    # the moment shutdown returns: every idle connection already has its QUIT (the peer's log is read right then; tokio on a
+    # current-thread runtime), and a connection being closed towards a peer that answers QUIT 2 s late delays neither a second
+    # shutdown nor a send
+    for kind in "sa":
+        for k in range(0, 4):
+            cases.append(f"shut\tatreturn\t{kind}\t{k}")
+        cases.append(f"shut\tslowquit\t{kind}")
     return cases
 
 
@@ -59,6 +66,8 @@ def timing_dependent(case):
 
 
 def nontrivial(case):
+    if case.startswith("shut"):
+        return True
     toks = case.split("\t")[8].split(",")
     if "x0" not in toks:
         return False
@@ -72,7 +81,10 @@ def shrinkable(case):
 
 
 def distribution(cases):
+    shut = [c for c in cases if c.startswith("shut")]
+    cases = [c for c in cases if not c.startswith("shut")]
     d = c07.distribution(cases)
+    d["at_shutdown_return"] = len(shut)
     d["two_shutdowns"] = sum("x1" in c.split("\t")[8].split(",") for c in cases)
     d["no_shutdown_drop_only"] = sum("x0" not in c.split("\t")[8].split(",") for c in cases)
     return d
